@@ -97,7 +97,7 @@ META = {
     "C06": {
         "sections": ["Arith.Max", "Arith.Min"],
         "rule": "EVERY string of 1..4 (thorough 1..5) symbols over the 14-symbol location alphabet {0,1,2,9,.,^,<,>,',',),-,join(,order(,complement(} through AsLocation (41,370 / 579,194 strings; every 7th also through tryLocation); printed forms of the whole shape family and of 3000 (thorough 100000) random derivations (nesting <=3, 1..4 parts, coordinates < 300) and single-byte mutants of them; legacy trailing '>' spellings; Join/Order of every pair and a fifth of the triples from a 22-part pool. Oracle: print->parse->print identity, equal denotation and partial markers, parse->print fixed point for every accepted string, Join/Order keep the denoted bases. Non-trivial = more than one symbol / every structured case.",
-        "assumptions": ["theorem C06_print_parse_roundtrip: as_location (show l) = Ok l for every printable l (int64 coordinates, constructor-normal joins/orders/complements); PARTIAL for join reduction: theorems cover Order and the range-merging rules, the general Join theorem is false of the code (K1, K4) and is otherwise decided by correspondence + oracle",
+        "assumptions": ["theorem C06_print_parse_roundtrip: as_location (show l) = Ok l for every printable l (int64 coordinates, constructor-normal joins/orders/complements); theorem C06_join_keeps_residues: Join keeps the denoted residues (up to adjacent duplicates) for every list with non-empty ranges and no point on a range end (k1_free); PARTIAL: with a point on a range end the statement is false of the code (K1), idempotence fails (K4): those shapes are decided by correspondence + oracle",
                         "values with complement(complement(x)) are not constructible through Location.Complement() and are outside the round-trip claim",
                         "known findings K1 (pinned by TestLocationReduction) and K4 (Join not idempotent around an absorbed between-site)"],
     },
